@@ -287,6 +287,10 @@ type repoManager struct {
 	branchToUUID map[string]dvid.UUID
 	branchMutex  sync.RWMutex
 
+	// Serializes version creation so the "one child per branch" check and the
+	// addition of the child are atomic.
+	newVersionMutex sync.Mutex
+
 	// Counters that provide the local IDs of the next new repo, version, or data instance.
 	// Valid counters should be >= 1, so we can distinguish between valid ids and the
 	// default zero value.
@@ -1815,6 +1819,9 @@ func (m *repoManager) newVersion(parent dvid.UUID, note string, branchname strin
 	if !found {
 		return dvid.NilUUID, ErrInvalidVersion
 	}
+
+	m.newVersionMutex.Lock()
+	defer m.newVersionMutex.Unlock()
 
 	node.RLock()
 	defer node.RUnlock()
